@@ -40,6 +40,10 @@ ChunksOk(e) ==
     [] e.fault = "source" -> /\ e.res = "ReaderErr" /\ Incomplete(e.walk)
                              /\ e.walk.len = e.srcLen /\ e.walk.digest = e.srcDigest \* everything delivered before the error went out
                              /\ \A i \in 1..Len(e.walk.chunks) : ChunkOk(e.walk.chunks[i])
+    \* the writer reported an error once and would have accepted bytes again: an encoder may give up (next case) or carry
+    \* on, but then the output has to be the complete, correct encoding -- no byte twice, none missing
+    [] e.fault \notin {"none", "source"} /\ e.transient /\ e.res = "Ok" ->
+                /\ Complete(e.walk) /\ e.walk.len = e.srcLen /\ e.walk.digest = e.srcDigest
     [] OTHER -> /\ e.res = "WriterErr" /\ ~Complete(e.walk)                       \* a broken connection: only a prefix went out
                 /\ e.walk.len <= e.srcLen
                 /\ e.walk.digest = e.srcPrefixDigest                              \* ... a prefix of the RIGHT data ...
